@@ -229,6 +229,10 @@ def layered(inp):
     method = lopts.pop('method')
     lopts['return_imat'] = True
 
+    # The gradient is required for each layer of the model: no merging.
+    if gradient:
+        lopts['merge'] = False
+
     # Source coordinates; finite dipoles are defined by their end points
     # (empymod-format [x1, x2, y1, y2, z1, z2]).
     src_coordinates = src.coordinates
